@@ -7,6 +7,8 @@
 //!   probe transcript <quick|thorough> <outfile>
 //!   probe skipcheck  <quick|thorough>
 
+extern crate alloc;
+
 use minicbor::data::Type;
 #[allow(unused_imports)]
 use minicbor::decode::{self, Decode, Decoder};
@@ -43,7 +45,7 @@ trait Dig {
 }
 
 macro_rules! dig_int { ($($t:ty)*) => { $( impl Dig for $t { fn dig(&self, h: &mut H) { h.u64(*self as i128 as u64); h.u64((*self as i128 >> 64) as u64) } } )* } }
-dig_int!(u8 u16 u32 u64 i8 i16 i32 i64 usize);
+dig_int!(u8 u16 u32 u64 i8 i16 i32 i64 usize isize);
 
 impl Dig for bool {
     fn dig(&self, h: &mut H) {
@@ -216,7 +218,8 @@ fn rec<T: Dig>(d: &Decoder, r: Result<T, decode::Error>) -> Rec {
             v.dig(&mut h);
             Rec { class: 0, pos: d.position() as u32, digest: h.0 }
         }
-        Err(e) => Rec { class: class_of(&e), pos: d.position() as u32, digest: 0 },
+        // for errors the digest is the position the error itself reports (0 = none)
+        Err(e) => Rec { class: class_of(&e), pos: d.position() as u32, digest: e.position().map(|p| p as u64 + 1).unwrap_or(0) },
     }
 }
 
@@ -282,6 +285,132 @@ impl Dig for DMap<'_> {
         self.b.dig(h)
     }
 }
+/// tags on the type and on fields (the generated tag-mismatch error differs per configuration)
+#[derive(minicbor::Encode, minicbor::Decode, minicbor::CborLen)]
+#[cbor(tag(5))]
+struct DTag {
+    #[n(0)]
+    #[cbor(tag(6))]
+    a: u8,
+    #[n(1)]
+    #[cbor(tag(300))]
+    b: Option<u8>,
+}
+impl Dig for DTag {
+    fn dig(&self, h: &mut H) {
+        self.a.dig(h);
+        self.b.dig(h)
+    }
+}
+#[derive(minicbor::Encode, minicbor::Decode, minicbor::CborLen)]
+#[cbor(map, tag(1))]
+struct DTagMap {
+    #[n(0)]
+    #[cbor(tag(1))]
+    a: Option<u8>,
+}
+impl Dig for DTagMap {
+    fn dig(&self, h: &mut H) {
+        self.a.dig(h)
+    }
+}
+#[derive(minicbor::Encode, minicbor::Decode, minicbor::CborLen)]
+enum DTagEnum {
+    #[n(0)]
+    #[cbor(tag(1))]
+    A,
+    #[n(1)]
+    #[cbor(tag(1))]
+    B(#[n(0)] #[cbor(tag(1))] u8),
+}
+impl Dig for DTagEnum {
+    fn dig(&self, h: &mut H) {
+        match self {
+            DTagEnum::A => h.tag(20),
+            DTagEnum::B(x) => {
+                h.tag(21);
+                x.dig(h)
+            }
+        }
+    }
+}
+#[derive(minicbor::Encode, minicbor::Decode, minicbor::CborLen)]
+#[cbor(index_only)]
+enum DIdx {
+    #[n(0)]
+    A,
+    #[n(3)]
+    B,
+}
+impl Dig for DIdx {
+    fn dig(&self, h: &mut H) {
+        match self {
+            DIdx::A => h.tag(22),
+            DIdx::B => h.tag(23),
+        }
+    }
+}
+#[derive(minicbor::Encode, minicbor::Decode, minicbor::CborLen)]
+#[cbor(transparent)]
+struct DTrans(#[n(0)] DStruct);
+impl Dig for DTrans {
+    fn dig(&self, h: &mut H) {
+        self.0.dig(h)
+    }
+}
+#[derive(minicbor::Encode, minicbor::Decode, minicbor::CborLen)]
+struct DNest<'a>(#[n(0)] Option<DIdx>, #[b(1)] Option<DMap<'a>>, #[n(2)] Option<DTag>);
+impl Dig for DNest<'_> {
+    fn dig(&self, h: &mut H) {
+        self.0.dig(h);
+        self.1.dig(h);
+        self.2.dig(h)
+    }
+}
+/// borrowing Cow fields (the generated code names std:: or alloc:: depending on the configuration)
+#[cfg(feature = "alloc")]
+#[derive(minicbor::Encode, minicbor::Decode, minicbor::CborLen)]
+struct DCow<'a> {
+    #[b(0)]
+    s: Option<alloc_or_std::Cow<'a, str>>,
+    #[b(1)]
+    #[cbor(with = "minicbor::bytes")]
+    c: Option<alloc_or_std::Cow<'a, [u8]>>,
+    #[n(2)]
+    o: Option<alloc_or_std::Cow<'a, str>>,
+}
+#[cfg(feature = "alloc")]
+mod alloc_or_std {
+    pub use std::borrow::Cow;
+}
+#[cfg(feature = "alloc")]
+impl Dig for DCow<'_> {
+    fn dig(&self, h: &mut H) {
+        use alloc_or_std::Cow;
+        for (i, b) in [self.s.as_ref().map(|c| (matches!(c, Cow::Borrowed(_)), c.as_bytes())), self.c.as_ref().map(|c| (matches!(c, Cow::Borrowed(_)), &c[..])), self.o.as_ref().map(|c| (matches!(c, Cow::Borrowed(_)), c.as_bytes()))].iter().enumerate() {
+            h.tag(40 + i as u8);
+            match b {
+                None => h.tag(0),
+                Some((borrowed, bytes)) => {
+                    h.tag(1 + *borrowed as u8);
+                    bytes.dig(h)
+                }
+            }
+        }
+    }
+}
+#[cfg(feature = "alloc")]
+#[derive(minicbor::Encode, minicbor::Decode, minicbor::CborLen)]
+#[cbor(transparent)]
+struct DCowT<'a>(#[b(0)] alloc_or_std::Cow<'a, str>);
+#[cfg(feature = "alloc")]
+impl Dig for DCowT<'_> {
+    fn dig(&self, h: &mut H) {
+        h.tag(1 + matches!(self.0, alloc_or_std::Cow::Borrowed(_)) as u8);
+        self.0.as_bytes().dig(h)
+    }
+}
+
 #[derive(minicbor::Encode, minicbor::Decode, minicbor::CborLen)]
 enum DEnum {
     #[n(0)]
@@ -308,6 +437,44 @@ impl Dig for DEnum {
                 x.dig(h)
             }
         }
+    }
+}
+impl<A: Dig> Dig for (A,) {
+    fn dig(&self, h: &mut H) {
+        self.0.dig(h)
+    }
+}
+impl<A: Dig, B: Dig, C: Dig> Dig for (A, B, C) {
+    fn dig(&self, h: &mut H) {
+        self.0.dig(h);
+        self.1.dig(h);
+        self.2.dig(h)
+    }
+}
+impl<T: Dig> Dig for core::ops::RangeInclusive<T> {
+    fn dig(&self, h: &mut H) {
+        self.start().dig(h);
+        self.end().dig(h)
+    }
+}
+impl<T: Dig> Dig for core::num::Wrapping<T> {
+    fn dig(&self, h: &mut H) {
+        self.0.dig(h)
+    }
+}
+impl Dig for core::num::NonZeroU8 {
+    fn dig(&self, h: &mut H) {
+        self.get().dig(h)
+    }
+}
+impl<T: Dig + Copy> Dig for core::cell::Cell<T> {
+    fn dig(&self, h: &mut H) {
+        self.get().dig(h)
+    }
+}
+impl Dig for core::ffi::CStr {
+    fn dig(&self, h: &mut H) {
+        self.to_bytes_with_nul().dig(h)
     }
 }
 impl Dig for core::time::Duration {
@@ -456,6 +623,26 @@ fn decode_ops() -> Vec<Op> {
         typed!("decode<DMap>", DMap),
         typed!("decode<DEnum>", DEnum),
         typed!("decode<Option<DEnum>>", Option<DEnum>),
+        typed!("decode<DTag>", DTag),
+        typed!("decode<DTagMap>", DTagMap),
+        typed!("decode<DTagEnum>", DTagEnum),
+        typed!("decode<DIdx>", DIdx),
+        typed!("decode<DTrans>", DTrans),
+        typed!("decode<DNest>", DNest),
+        typed!("decode<[u8;0]>", [u8; 0]),
+        typed!("decode<[u8;1]>", [u8; 1]),
+        typed!("decode<[Option<u8>;2]>", [Option<u8>; 2]),
+        typed!("decode<(u8,)>", (u8,)),
+        typed!("decode<(u8,u8,u8)>", (u8, u8, u8)),
+        typed!("decode<Option<Option<u8>>>", Option<Option<u8>>),
+        typed!("decode<RangeInclusive<u8>>", core::ops::RangeInclusive<u8>),
+        typed!("decode<Wrapping<i8>>", core::num::Wrapping<i8>),
+        typed!("decode<NonZeroU8>", core::num::NonZeroU8),
+        typed!("decode<Cell<u8>>", core::cell::Cell<u8>),
+        typed!("decode<u16>", u16),
+        typed!("decode<i8>", i8),
+        typed!("decode<isize>", isize),
+        typed!("decode<&CStr>", &core::ffi::CStr),
     ];
     #[cfg(feature = "half")]
     {
@@ -505,6 +692,8 @@ fn decode_ops() -> Vec<Op> {
         v.push(typed!("decode<Vec<Option<i8>>>", Vec<Option<i8>>));
         v.push(typed!("decode<ByteVec>", ByteVecD));
         v.push(typed!("decode<Box<u8>>", BoxD));
+        v.push(typed!("decode<DCow>", DCow));
+        v.push(typed!("decode<DCowT>", DCowT));
     }
     // serde bridge
     v.push(Op { name: "serde<u8>", run: |b| serde_rec::<u8>(b) });
